@@ -71,7 +71,7 @@ CHECKS = {
     'C12': dict(
         engine='E1 bounded-exhaustive input sweep (in-process plan) + real binary',
         technique='bounded-exhaustive enumeration of all well-formed brace terms, ranges, tilde forms and directory populations x patterns, planned by the real code against reference expanders; conformance replay through the real binary',
-        text='Every well-formed brace term over {a b { } ,} (groups without a comma count as literal text) up to length 8 (thorough 10; nesting <= 3, <= 4 alternatives, <= 3 groups) in four position templates (also next to quoted arguments), all pairs of short terms, all ranges {m..n[..s]} over -3..3 (-5..5) x six steps with and without surrounding text, tilde forms, and every population subset of {a ab b .h "a b" d/ d/e} x ten patterns are planned by the real code and compared with reference brace / range / glob expanders (order, cartesian product, empty alternatives, inclusive sequences, sorted non-hidden matches or the pattern itself, quoted words untouched, words with blanks stay one argument). A subset is executed by the real binary. Also: ranges with bounds and steps at the ends of the 32-bit range.',
+        text='Every well-formed brace term over {a b { } ,} (groups without a comma count as literal text) up to length 8 (thorough 10; nesting <= 3, <= 4 alternatives, <= 3 groups) in four position templates (also next to quoted arguments), all pairs of short terms, all ranges {m..n[..s]} over -3..3 (-5..5) x six steps with and without surrounding text, tilde forms, and every population subset of {a ab b .h "a b" d/ d/e .k/ .k/e} x eleven patterns (incl. */e: a hidden directory is not matched by a * component) are planned by the real code and compared with reference brace / range / glob expanders (order, cartesian product, empty alternatives, inclusive sequences, sorted non-hidden matches or the pattern itself, quoted words untouched, words with blanks stay one argument). A subset is executed by the real binary. Also: ranges with bounds and steps at the ends of the 32-bit range.',
         note='Alphabet, length and population universe are the bound; empty words may be kept or dropped; ~name and patterns ending in / are outside the statement.',
         ref='DESIGN.md §4 C12'),
     'C13': dict(
